@@ -513,7 +513,13 @@ pub fn par_cases<T: Sync, F: Fn(&mut Monitor, u64, &T) + Sync>(m: &mut Monitor, 
         .fold(
             || parent.fork(),
             |mut acc, (i, c)| {
-                f(&mut acc, i as u64, c);
+                // a panic inside the library (an `unwrap` on a solver error, say) must not tear
+                // the whole run down: the case is counted as skipped, with the message
+                if let Err(msg) = no_panic(|| f(&mut acc, i as u64, c)) {
+                    let short: String = msg.chars().take(90).collect();
+                    acc.skip("workload", &format!("library panicked: {short}"));
+                    acc.count("library_panics_in_workload", 1);
+                }
                 acc
             },
         )
